@@ -419,6 +419,142 @@ func ruleOutput(c *Ctx) {
 	}
 	c.atLeast("spawn/open-for-write sites", nSp, 4)
 
+	// ---- FLUSH-ALL before a synchronous child: a function that starts a process and waits for it in the same call
+	// (system()) must first flush every output stream - the function that ranges over the table of output streams
+	// flushing each - not just standard output: the child may read a file or feed on a pipe the program wrote to
+	{
+		flushAllFns := map[*ssa.Function]bool{}
+		for _, fn := range fns {
+			ranges, flushes := false, false
+			allInstrs(fn, func(in ssa.Instruction) {
+				if r, ok := in.(*ssa.Range); ok && interpFieldLoad(r.X) == "outputStreams" {
+					ranges = true
+				}
+				if call, ok := in.(ssa.CallInstruction); ok {
+					cc := call.Common()
+					if cc.IsInvoke() && cc.Method.Name() == "Flush" {
+						flushes = true
+					}
+					if cal := cc.StaticCallee(); cal != nil && cal.Pkg == fn.Pkg {
+						has := false
+						allInstrs(cal, func(i2 ssa.Instruction) {
+							if c2, ok := i2.(ssa.CallInstruction); ok && c2.Common().IsInvoke() && c2.Common().Method.Name() == "Flush" {
+								has = true
+							}
+						})
+						if has {
+							flushes = true
+						}
+					}
+				}
+			})
+			if ranges && flushes {
+				flushAllFns[fn] = true
+			}
+		}
+		nSync := 0
+		for _, fn := range fns {
+			var start, wait ssa.Instruction
+			allInstrs(fn, func(in ssa.Instruction) {
+				call, ok := in.(ssa.CallInstruction)
+				if !ok {
+					return
+				}
+				if o := calleeObj(call); o != nil {
+					switch o.FullName() {
+					case "(*os/exec.Cmd).Start":
+						start = in
+					case "(*os/exec.Cmd).Wait":
+						wait = in
+					}
+				}
+				if cal := call.Common().StaticCallee(); cal != nil && cal.Name() == "waitExitCode" {
+					wait = in
+				}
+			})
+			if start == nil || wait == nil {
+				continue
+			}
+			nSync++
+			okAll := false
+			for _, b := range fn.Blocks {
+				for i, i2 := range b.Instrs {
+					call, ok := i2.(ssa.CallInstruction)
+					if !ok {
+						continue
+					}
+					cal := call.Common().StaticCallee()
+					if cal == nil || !flushAllFns[cal] {
+						continue
+					}
+					if (b == start.Block() && i < instrIndex(b, start)) || (b != start.Block() && b.Dominates(start.Block())) {
+						okAll = true
+					}
+				}
+			}
+			c.check(okAll, "flush-all-before-sync-child:"+fnKey(fn), posOr(start.Pos(), fn.Pos()), "every output stream is flushed before the child that is waited for is started", fnKey(fn)+" starts a child process and waits for it without first flushing every output stream (only standard output, or nothing): what the program wrote to a file or pipe is not there when the child looks at it")
+		}
+		c.atLeast("functions that run a child to completion", nSync, 1)
+	}
+
+	// ---- RAW-DEST: the destination behind a buffered stream (the file or pipe a stream type holds next to its
+	// embedded *bufio.Writer) is closed, never written directly: a direct write overtakes what is still buffered
+	{
+		nRaw := 0
+		for _, fn := range fns {
+			fn := fn
+			allInstrs(fn, func(in ssa.Instruction) {
+				call, ok := in.(ssa.CallInstruction)
+				if !ok || !call.Common().IsInvoke() {
+					return
+				}
+				switch call.Common().Method.Name() {
+				case "Write", "WriteString", "ReadFrom", "WriteByte", "WriteRune":
+				default:
+					return
+				}
+				// receiver: (a type assertion of) a load of a non-Writer field of a struct that embeds *bufio.Writer
+				v := call.Common().Value
+				for i := 0; i < 4; i++ {
+					switch x := v.(type) {
+					case *ssa.Extract:
+						v = x.Tuple
+						continue
+					case *ssa.TypeAssert:
+						v = x.X
+						continue
+					case *ssa.ChangeInterface:
+						v = x.X
+						continue
+					}
+					break
+				}
+				f, base := loadedField(v)
+				if f == nil {
+					return
+				}
+				st, ok := deref(base.Type()).Underlying().(*types.Struct)
+				if !ok {
+					return
+				}
+				embeds := false
+				for i := 0; i < st.NumFields(); i++ {
+					if st.Field(i).Embedded() && types.TypeString(st.Field(i).Type(), nil) == "*bufio.Writer" {
+						embeds = true
+					}
+				}
+				if !embeds || f.Embedded() {
+					return
+				}
+				nRaw++
+				c.bad("raw-dest-write:"+fnKey(fn), posOr(in.Pos(), fn.Pos()), "%s writes to %s, the destination behind a buffered stream, directly: the bytes overtake whatever is still in the stream's buffer, so output arrives out of program order", fnKey(fn), f.Name())
+			})
+		}
+		if nRaw == 0 {
+			c.ok("raw-dest-write", token.NoPos, "no stream type writes to the destination behind its buffer directly")
+		}
+	}
+
 	// ---- ONE-STREAM and special names
 	gos := c.ssaFunc("interp", "interp.getOutputStream")
 	if gos == nil {
@@ -735,7 +871,7 @@ func ruleOutput(c *Ctx) {
 				}
 			}
 			if !early {
-				bad = ret.Pos()
+				bad = posOr(ret.Pos(), fn.Pos())
 			}
 		}
 		c.check(bad == token.NoPos && len(waits) > 0, "wait-always:"+fnKey(fn), bad,
@@ -796,7 +932,7 @@ func ruleOutput(c *Ctx) {
 					}
 				}
 				bad = v.String()
-				badPos = in.Pos()
+				badPos = posOr(in.Pos(), token.Pos(1))
 			})
 			c.check(bad == "" && nSt >= 1, "as-given:"+want, badPos, "p."+want+" is the caller's writer itself, or the default standard stream",
 				"setExecuteConfig stores into p."+want+" something other than the caller's writer or the default standard stream ("+bad+"): a buffer the interpreter puts around the caller's writer hides write errors until the final flush, whose error is not reported, so failed output looks like success")
